@@ -12,7 +12,7 @@ import itertools
 
 import ufl
 import ufl.classes as C
-from ufl import as_vector, conditional, diff, dot, exp, grad, inner, ln, lt, sin, sqrt, tr, variable, det, outer
+from ufl import as_vector, conditional, diff, div, dot, exp, grad, inner, ln, lt, sin, sqrt, tr, variable, det, outer
 from ufl.algorithms.apply_algebra_lowering import apply_algebra_lowering
 from ufl.algorithms.apply_derivatives import VariableRuleset, apply_derivatives
 from ufl.core.multiindex import Index
@@ -170,6 +170,14 @@ def build(run):
         yield "two scalar variables, vector of diffs", lambda: two("vector")
         yield "two vector variables of the same shape", lambda: two("vectors")
         yield "variable and coefficient of the same shape", lambda: (lambda x_: diff(x_ * x_ * g, x_) + diff(x_ * g * g, g))(variable(f))
+
+        # the variable wraps an expression that derivative expansion itself rewrites (a derivative of a non-terminal): the variable
+        # must still be recognised (by its label) inside f after the wrapped expression was rewritten there
+        yield "variable wraps (f*g).dx(0)", lambda: _d(lambda s_: s_ * s_ * g + sin(s_), variable((f * g).dx(0)))
+        yield "variable wraps grad(f*f) (vector)", lambda: _d(lambda w_: w_[i] * w_[i] * f + w_[0], variable(grad(f * f)))[j] * u[j]
+        yield "variable wraps div(f*u)", lambda: _d(lambda s_: exp(s_) * f, variable(div(f * u)))
+        yield "variable wraps grad(grad(f*g))[0,1]", lambda: _d(lambda s_: s_ ** 3, variable(grad(grad(f * g))[0, 1]))
+        yield "variable wraps a diff", lambda: (lambda s0: _d(lambda s_: s_ * s_ * s0, variable(diff(s0 ** 3 * g, s0))))(variable(f))
 
     def _d(F, v):
         return diff(F(v), v)
